@@ -715,6 +715,28 @@ def d4(cx: Cx, ob: Ob) -> None:
             if not is_ctor:
                 continue
             ob.site(f"{where(fn, ev.line)} {fn.qualname}", "Converter construction")
+            # the duplicate errors of the strict constructor reach the caller AS they are: a `try` around the
+            # construction whose handler catches them (ValueError and wider) and raises something else hides 'which
+            # records clash' behind another error
+            for tr in ast.walk(fn.node):
+                if not isinstance(tr, ast.Try) or not any(getattr(n_, "lineno", None) == ev.line for b_ in tr.body for n_ in ast.walk(b_)):
+                    continue
+                for h in tr.handlers:
+                    names_ = [ast.unparse(x_).rsplit(".", 1)[-1] for x_ in (h.type.elts if isinstance(h.type, ast.Tuple) else [h.type])] if h.type is not None else ["BaseException"]
+                    wide = [n_ for n_ in names_ if n_ in ("ValueError", "Exception", "BaseException", "DuplicateValueError")]
+                    if not wide:
+                        continue
+                    reraises = any(isinstance(x_, ast.Raise) and x_.exc is None for b_ in h.body for x_ in ast.walk(b_))
+                    other = [x_ for b_ in h.body for x_ in ast.walk(b_) if isinstance(x_, ast.Raise) and x_.exc is not None]
+                    swallowed = not any(isinstance(x_, ast.Raise) for b_ in h.body for x_ in ast.walk(b_))
+                    if (other or swallowed) and not reraises:
+                        ob.violate(
+                            fn.qualname,
+                            f"src/curies/{fn.module.relpath}:{h.lineno}",
+                            f"{fn.name} builds its converter inside a `try` whose handler catches {wide[0]} - and with it DuplicateURIPrefixes / DuplicatePrefixes of the strict constructor - and {'raises another error in their place' if other else 'swallows them'}: a collection in which a name is claimed twice is no longer rejected with the error that lists the clashing records",
+                            witness="a clash in the data given to this loader: plain ValueError without .duplicates (or no error at all)",
+                            detail="duplicate-error-relabelled",
+                        )
             kw = dict(c[3])
             if "strict" in kw and not (op(kw["strict"]) == "param"):
                 if not is_const(kw["strict"], True):
